@@ -35,6 +35,7 @@ type ScheduleSpec struct {
 	EmptyProb         float64 // probability that a submission is the empty transaction
 	FFResets          int     // number of times a validator loses its data and fast-syncs back
 	FFSingleServer    bool    // only one (random) peer answers fast-forward requests
+	FFOldest          bool    // with FFSingleServer: always in place, always served by the peer with the oldest anchor
 	PuppetProb        float64 // probability that a step is a puppet (Byzantine-content validator) exchange
 	CloseLeaves       bool    // the second leave request follows the first within a few steps
 	LagAtSecondChange bool    // with CloseOnCommit: a remaining validator lags from the second request on
@@ -364,7 +365,7 @@ func (nw *Network) RunSchedule(sp ScheduleSpec) {
 				o := x.Opts
 				o.FastSync = true
 				cur := clonePeers(x.Core.Peers().Peers)
-				inPlace := rng.Intn(2) == 0
+				inPlace := rng.Intn(2) == 0 || sp.FFOldest
 				var err error
 				if inPlace {
 					// the running node (e.g. restarted with bootstrap + fast-sync) resets
@@ -384,7 +385,7 @@ func (nw *Network) RunSchedule(sp ScheduleSpec) {
 							}
 						}
 						srv := others[rng.Intn(len(others))]
-						if rng.Intn(2) == 0 {
+						if rng.Intn(2) == 0 || sp.FFOldest {
 							// the peer whose anchor is the oldest (a lagging server)
 							best := 1 << 30
 							for _, q := range others {
